@@ -112,7 +112,7 @@ class Watch:
             self.current = None
             if persistence.need_save:
                 rec = {"n": len(self.attempts), "t": sim.now, "fired": False, "completed": False, "exc": None, "pending": None,
-                       "logic_at_start": sim.stats.get("logic_calls", 0)}
+                       "logic_at_start": sim.stats.get("logic_calls", 0), "main_before": self.fs.get(self.path)}
                 self.attempts.append(rec)
                 self.current = rec
                 spec = self.faults.get(str(rec["n"]))
@@ -139,6 +139,9 @@ class Watch:
                 rec["need_save_after"] = bool(persistence.need_save)
                 if sim.stats.get("logic_calls", 0) != rec["logic_at_start"]:
                     rec["overlap"] = True
+                elif self.world.gateway is not None:
+                    rec["state_at_end"] = W.projection(self.world.gateway.sensors)  # == what was serialised
+
             self.current = None
 
     def trace(self, opname, path):
@@ -151,7 +154,10 @@ class Watch:
             frac_kind, frac_pos, kind = rec["pending"]
             groups = ["open", "write", "flush", "fsync", "close", "rename", "remove"]
             target = groups[min(len(groups) - 1, int(frac_kind * len(groups)))]
-            if opname == target and (target != "write" or frac_pos < 0.5 or self.fs.opno > 3):
+            seen = rec.setdefault("seen", {})
+            seen[opname] = seen.get(opname, 0) + 1
+            want_nth = 2 if (target == "rename" and frac_pos >= 0.5) else 1  # the second rename is the critical one
+            if opname == target and seen[opname] >= want_nth and (target != "write" or frac_pos < 0.5 or self.fs.opno > 3):
                 rec["pending"] = None
                 rec["fired"] = (opname, kind)
                 self.fs.plan[self.fs.opno] = kind
@@ -224,6 +230,7 @@ def run(case):
 
 def _load_clone(world, fs, cfg):
     """What a fresh gateway would load from the disk as it is right now."""
+    real_fs = world.fs
     clone = fs.clone()
     clone.trace = None
     simfs.FsHolder.fs = clone
@@ -238,8 +245,8 @@ def _load_clone(world, fs, cfg):
             err = exc
         return err, W.projection(gw.sensors), gw_prev
     finally:
-        simfs.FsHolder.fs = fs
-        world.fs = fs
+        simfs.FsHolder.fs = real_fs
+        world.fs = real_fs
 
 
 def _check_after_period(world, gateway, watch, fs, cfg, violations, probes, n_before):
@@ -272,11 +279,24 @@ def _check_after_period(world, gateway, watch, fs, cfg, violations, probes, n_be
             probes["attempts_after_failure"] = 1
         if not rec["completed"]:
             probes["attempts_failed"] = probes.get("attempts_failed", 0) + 1
-            err, _state, _ = _load_clone(world, fs, cfg)
+            err, state, _ = _load_clone(world, fs, cfg)
             world.gateway = gateway
             if err is not None:
                 violations.append(_vio("previous-file-not-loadable", {"exc": repr(err), "attempt": rec["n"], "fault": rec.get("fired"), "save_exc": rec.get("exc")},
                                        exc=type(err).__name__))
+            elif rec.get("main_before") is not None and "state_at_end" in rec and rec is watch.attempts[-1]:
+                # the disk must still give what the file held before this attempt (directly or through
+                # the backup), or the complete new state when the failure came after the second rename
+                scratch = simfs.SimFS()
+                scratch.put(watch.path, rec["main_before"])
+                _e, previous, _ = _load_clone(world, scratch, cfg)
+                world.gateway = gateway
+                if state != previous and state != rec["state_at_end"]:
+                    violations.append(_vio("previous-file-lost", {"attempt": rec["n"], "fault": rec.get("fired"), "save_exc": rec.get("exc"),
+                                                                  "loaded_nodes": sorted(state, key=repr), "previous_nodes": sorted(previous, key=repr)},
+                                           op=(rec.get("fired") or ["?"])[0]))
+                else:
+                    probes["previous_file_content_checked"] = probes.get("previous_file_content_checked", 0) + 1
             if not rec.get("need_save_after", True):
                 violations.append(_vio("dirty-flag-cleared-after-failure", {"attempt": rec["n"], "fault": rec.get("fired"), "save_exc": rec.get("exc")}))
     world.gateway = gateway
